@@ -130,7 +130,9 @@ def multiLoop (preds : List (List Nat)) (source destination : Nat) :
         let paths' := if cur = source then paths ++ [lst' ++ [destination]] else paths
         multiLoop preds source destination fuel stack' paths'
 
-def multiFuel : Nat := 2000000
+/-- step budget of the all-paths machine: more than the machine can ever need on `n` vertices
+(`MultiPath.fuel_enough`), so the budget never binds — the C++ loop has none -/
+def multiFuel (n : Nat) : Nat := (n + 2) ^ (n + 2)
 
 def findMultiplePathsFromPredecessors (preds : List (List Nat)) (source destination : Nat) :
     Res (List (List Nat)) :=
@@ -138,7 +140,7 @@ def findMultiplePathsFromPredecessors (preds : List (List Nat)) (source destinat
   else match preds[destination]? with
     | none => .ub
     | some ps =>
-      match multiLoop preds source destination multiFuel ((ps.map (fun p => (p, ([] : List Nat)))).reverse) [] with
+      match multiLoop preds source destination (multiFuel preds.length) ((ps.map (fun p => (p, ([] : List Nat)))).reverse) [] with
       | some r => r
       | none => .ub
 
